@@ -377,9 +377,13 @@ class Polygon(Shape2D):
         # axis theorem can be applied in the reverse direction (rotating about
         # the origin before translating to the actual centroid).
         original_center = self.center.copy()
-        original_vertices = self._vertices.copy()
-        original_normal = self._normal.copy()
+        original_vertices = self._vertices
+        original_normal = self._normal
 
+        # Work on copies so that arrays that were handed out earlier (e.g. by the
+        # vertices property) are not modified.
+        self._vertices = original_vertices.copy()
+        self._normal = original_normal.copy()
         self.center = (0, 0, 0)
         mat, _ = rowan.mapping.kabsch(
             [self.normal, -self.normal], [[0, 0, 1], [0, 0, -1]]
@@ -396,7 +400,6 @@ class Polygon(Shape2D):
             self.area,
         )
 
-        self.center = original_center
         self._vertices = original_vertices
         self._normal = original_normal
 
